@@ -42,6 +42,9 @@ func (w *World) Key() string {
 		fmt.Fprintf(h, "%d,%d,%x,%x;", m.Off, m.T, m.Key, m.Val)
 	}
 	fmt.Fprintf(h, "|%s|%d|", DirDigest(w.Dir, true), vtime.Clock().UnixMicro())
+	if w.BkDir != "" {
+		fmt.Fprintf(h, "bk:%s:%v:%d|", DirDigest(w.BkDir, true), w.BkClean, w.bkN)
+	}
 	if w.L == nil {
 		fmt.Fprint(h, "closed")
 	} else if HaveDump {
